@@ -60,6 +60,7 @@ type Plan struct {
 	SchedMonitor       bool
 	SecondCancelAtStep int
 	Invariant          func(w *World) `json:"-"` // evaluated at every quiescent point
+	Setup              func(w *World) `json:"-"` // adds further actors once the world exists (inside the bubble)
 	NoTagWrap          bool
 }
 
@@ -167,6 +168,8 @@ type World struct {
 	schedHash     hash.Hash
 	ConnStates    []string
 	Aux           any
+	Actors        []*Actor
+	OnTeardown    func()
 }
 
 type testingT interface {
@@ -428,6 +431,9 @@ func NewWorld(t testingT, plan *Plan) *World {
 		w.Clients = append(w.Clients, c)
 		go c.run()
 	}
+	if plan.Setup != nil {
+		plan.Setup(w)
+	}
 	return w
 }
 
@@ -635,6 +641,74 @@ func (w *World) ReqsByTag() map[string][]*BackendReq {
 
 // ------------------------------------------------------------- controller
 
+// Actor: a generic scripted participant (used by the transport world of C12):
+// a goroutine whose steps are released one at a time by the controller.
+type Actor struct {
+	W     *World
+	Name  string
+	Steps []ActorStep
+	gate  chan struct{}
+	quit  chan struct{}
+	// guarded by W.mu
+	atGate bool
+	done   bool
+	next   int
+	Errs   []string
+}
+
+type ActorStep struct {
+	Name      string
+	Fn        func() error
+	WhenQuiet bool   // offered only while nothing is in flight or parked anywhere
+	After     *Actor // offered only once this actor has finished
+}
+
+func (w *World) AddActor(name string, steps []ActorStep) *Actor {
+	a := &Actor{W: w, Name: name, Steps: steps, gate: make(chan struct{}), quit: make(chan struct{})}
+	w.Actors = append(w.Actors, a)
+	go a.run()
+	return a
+}
+
+func (a *Actor) run() {
+	defer func() {
+		a.W.mu.Lock()
+		a.done, a.atGate = true, false
+		a.W.mu.Unlock()
+	}()
+	for i := range a.Steps {
+		a.W.mu.Lock()
+		a.next, a.atGate = i, true
+		a.W.mu.Unlock()
+		select {
+		case <-a.gate:
+		case <-a.quit:
+			return
+		}
+		a.W.mu.Lock()
+		a.atGate = false
+		a.W.mu.Unlock()
+		if err := a.Steps[i].Fn(); err != nil {
+			a.W.mu.Lock()
+			a.Errs = append(a.Errs, fmt.Sprintf("%s step %d %s: %v", a.Name, i, a.Steps[i].Name, err))
+			a.W.mu.Unlock()
+		}
+	}
+}
+
+func (a *Actor) Done() bool {
+	a.W.mu.Lock()
+	defer a.W.mu.Unlock()
+	return a.done
+}
+
+func (w *World) worldQuiet() bool {
+	w.mu.Lock()
+	parked := len(w.Yields)
+	w.mu.Unlock()
+	return parked == 0 && len(w.Net.Pending()) == 0
+}
+
 type action struct {
 	label string
 	do    func()
@@ -658,6 +732,19 @@ func (w *World) enabled() []action {
 		}
 		if c.Plan.AbortKind != "" && !c.aborted && c.conn != nil && c.conn.out.delivered == c.Plan.AbortAt {
 			acts = append(acts, action{fmt.Sprintf("abort %s %s", c.Name, c.Plan.AbortKind), func() { w.abortClient(c) }})
+		}
+	}
+	for _, a := range w.Actors {
+		a := a
+		w.mu.Lock()
+		ok := a.atGate && !a.done
+		quiet := ok && a.next < len(a.Steps) && a.Steps[a.next].WhenQuiet
+		w.mu.Unlock()
+		if ok && a.next < len(a.Steps) && a.Steps[a.next].After != nil && !a.Steps[a.next].After.Done() {
+			ok = false
+		}
+		if ok && (!quiet || w.worldQuiet()) {
+			acts = append(acts, action{"actor " + a.Name, func() { a.gate <- struct{}{} }})
 		}
 	}
 	// yield releases
@@ -869,6 +956,11 @@ func (w *World) allClientsDone() bool {
 			return false
 		}
 	}
+	for _, a := range w.Actors {
+		if !a.Done() {
+			return false
+		}
+	}
 	return true
 }
 
@@ -989,6 +1081,16 @@ func (w *World) Teardown() {
 	}
 	for _, c := range w.Clients {
 		c.abort()
+	}
+	for _, a := range w.Actors {
+		select {
+		case <-a.quit:
+		default:
+			close(a.quit)
+		}
+	}
+	if w.OnTeardown != nil {
+		w.OnTeardown()
 	}
 	synctest.Wait()
 	w.Net.KillAll()
